@@ -11,6 +11,7 @@ def handle (line : String) : String :=
   | ["spec", d] => specLine (unhex d)
   | "scan" :: f :: _ :: entries => scanLine (unhex f) entries
   | "recreateio" :: c :: rs :: ws :: _ :: entries => recreateIoLine (unhex c) rs ws entries
+  | ["library", f] => libraryLine (unhex f)
   | ["estimate", d] => estimateLine (unhex d)
   | ["estimatefull", d] => estimateFullLine (unhex d)
   | ["public", d] => publicLine (unhex d)
